@@ -51,7 +51,7 @@ class C10Spec(explore.Spec):
         st = stream_lines()
         names = QUICK if self.tier == "quick" else ALL
         evs = [alpha.rx(st[n]) for n in names]
-        evs += alpha.events(v, ["SA0", "SB0", "PA", "PB"])
+        evs += alpha.events(v, ["SA0", "SB0", "PA", "PB", "CA1", "CA0"])  # CA1: a NEW child presents itself (not a node presentation)
         evs += [
             ("fw", 1, 1, 1, "F1"),
             ("fw", (1, 2), 1, 1, "F1"),
